@@ -13,7 +13,7 @@ Definition ex_lt (a b : bytes * Z * bytes) : bool := bytes_ltb (fst (fst a)) (fs
    and "accepted by dump-bundle" *)
 Definition op_cli_gen_dir (args : list sx) : sx :=
   match args with
-  | [_; SB base; SL tree] =>
+  | _ :: SB base :: SL tree :: _ =>              (* optional 4th argument: how -dir was spelled (no influence) *)
       match omap fentry_of_sx tree with
       | Some t =>
           match expected_exchanges base t with
